@@ -1,6 +1,5 @@
 package newick
 
-func vpDigit(i int) string { return string(rune('0' + i)) }
 
 // vpTree builds an ordered tree with n nodes. Nodes are numbered in pre-order;
 // node i (i>0) is attached as the last child of one of the nodes on the path
